@@ -4,6 +4,8 @@
    valid: "*" = MinidumpContextValidity::All, "-" = empty set, else comma separated register names
    hexbytes: "-" = empty
    sym: "-" = no symbol file for the module, else  S:func_lo:func_size:cfi_lo:cfi_size:cfa_off:ra_kind:ra_arg:fp_off|-
+        or  Y|func_lo|func_size|cfi_lo|cfi_size|<STACK CFI INIT rules, ~ for space>|<addr>=<STACK CFI delta rules>|...
+   gp: the registers of CpuContext::REGISTERS other than ip/sp/fp/lr, in REGISTERS order
    Answer: <debug answer> ## <release answer>; an answer is  P  (panic),  OOF  (out of fuel), or frames joined by '|':
      instr,resume,sp,fp,lr,trust,valid names joined by '+',gp values joined by '+',module index or - *)
 let name_of_z (x : z) : string =
@@ -19,13 +21,28 @@ let trust_name = function 0 -> "none" | 1 -> "scan" | 2 -> "cfi_scan" | 3 -> "fr
 let unhex (s : string) : z list =
   if s = "-" then [] else
   List.init (String.length s / 2) (fun i -> z_of_int (int_of_string ("0x" ^ String.sub s (2 * i) 2)))
+let bytes_of_string (s : string) : z list = List.init (String.length s) (fun i -> z_of_int (Char.code s.[i]))
+let untilde (s : string) : string = String.map (fun c -> if c = '~' then ' ' else c) s
 let parse_sym (s : string) =
   if s = "-" then None else
+  if String.length s > 2 && String.sub s 0 2 = "Y|" then begin
+    (* Y|func_lo|func_size|cfi_lo|cfi_size|init rules (~ for space)|addr=delta rules|... *)
+    match String.split_on_char '|' s with
+    | "Y" :: flo :: fsz :: clo :: csz :: init :: deltas ->
+        let ds = List.map (fun d ->
+          match String.index_opt d '=' with
+          | Some i -> (z_of_string (String.sub d 0 i), bytes_of_string (untilde (String.sub d (i + 1) (String.length d - i - 1))))
+          | None -> failwith ("bad delta " ^ d)) deltas in
+        Some { s_func_lo = z_of_string flo; s_func_size = z_of_string fsz; s_cfi_lo = z_of_string clo;
+               s_cfi_size = z_of_string csz; s_cfa_off = z_of_int 0; s_ra_kind = z_of_int 0; s_ra_arg = z_of_int 0;
+               s_fp_off = None; s_text = Some (bytes_of_string (untilde init), ds) }
+    | _ -> failwith ("bad sym " ^ s)
+  end else
   match String.split_on_char ':' s with
   | [ "S"; flo; fsz; clo; csz; cfa; rk; ra; fp ] ->
       Some { s_func_lo = z_of_string flo; s_func_size = z_of_string fsz; s_cfi_lo = z_of_string clo;
              s_cfi_size = z_of_string csz; s_cfa_off = z_of_string cfa; s_ra_kind = z_of_string rk;
-             s_ra_arg = z_of_string ra; s_fp_off = (if fp = "-" then None else Some (z_of_string fp)) }
+             s_ra_arg = z_of_string ra; s_fp_off = (if fp = "-" then None else Some (z_of_string fp)); s_text = None }
   | _ -> failwith ("bad sym " ^ s)
 let fmt_frames mods ngp (fs : frame list) : string =
   String.concat "|" (List.map (fun f ->
